@@ -350,6 +350,9 @@ func (g *genStorage) Block(w *World, b int) Block {
 		}
 	}
 	blk.Steps = g.net.Apply(rng, b, len(w.nodes), steps)
+	if (g.profile == "usage" || g.profile == "gauges") && len(w.nodes) == 1 && rng.Chance(1, 50) {
+		blk.Reimport = true // restart of the whole chain from its own exported genesis (plans, files, gauges are exported)
+	}
 	return blk
 }
 
